@@ -25,6 +25,9 @@ var c07Failing = []struct {
 	{"{{ 1 | no_such_filter }}", false, "no_such_filter"},
 	{"{{ 7 | divided_by: 0 }}", false, "divided_by"},
 	{"{{ 'abc' | plus: 1 }}", false, "convert"},
+	// the wrapped error's own text contains a percent sign: the message still names the problem
+	{"{{ '50%d%' | plus: 1 }}", false, "50%d%"},
+	{"{{ '%s' | divided_by: '100%' }}", false, "%"},
 	{"{% cycle 'a' %}", false, "cycle"},
 	{"{{ undefined_name }}", false, "undefined"},
 	{"{{ 1 + }}", true, "1 +"},
@@ -85,7 +88,8 @@ func VerifC07Template() {
 		nd.Assume(pi <= 2) // these are only failures outside blocks / loops
 	}
 	// the path is reported exactly as given: no cleaning, no resolution
-	path := []string{"", "dir/t.html", "./dir//t.html", "a/../t.html", "dir/"}[nd.Choice(5)]
+	pk := nd.Choice(5)
+	path := []string{"", "dir/t.html", "./dir//t.html", "a/../t.html", "dir/"}[pk]
 	start := nd.Int()
 	nd.Assume(start >= 0 && start < 1<<40)
 	pre += c07Filler(nd.Choice(c07Fillers))
@@ -94,6 +98,10 @@ func VerifC07Template() {
 	e := NewEngine()
 	e.StrictVariables()
 	tpl, perr := e.ParseTemplateLocation([]byte(src), path, start)
+	if (pk == 1 || pk == 2) && nd.Choice(2) == 1 {
+		// the caching entry point reports locations the same way
+		tpl, perr = e.ParseTemplateAndCache([]byte(src), path, start)
+	}
 	var err SourceError
 	if f.parse {
 		nd.Assert(perr != nil && tpl == nil, "parse-fails-without-template")
